@@ -1,3 +1,5 @@
 pub mod base;
 pub mod geometric;
 pub mod time;
+#[cfg(feature = "verif")]
+pub mod verif;
